@@ -74,14 +74,37 @@ impl Default for SessionOpts {
         let mut emmyrc = Emmyrc::default();
         // keep reindex off unless a scenario turns it on (save handler then only bumps versions)
         emmyrc.workspace.enable_reindex = false;
+        // dynamic watched-files registration: otherwise a workspace reload falls back to the
+        // fs-notify watcher whose forwarding task calls the BLOCKING std::sync::mpsc::Receiver::recv()
+        // inside a tokio task (register_file_watch.rs) and would stall this single-threaded runtime.
+        let capabilities = default_capabilities(false);
         SessionOpts {
             root: None,
-            capabilities: ClientCapabilities::default(),
+            capabilities,
             emmyrc: Arc::new(emmyrc),
             load_std: false,
             scheduled: false,
         }
     }
+}
+
+/// Client capabilities used by the in-process sessions (push diagnostics unless `pull`).
+pub fn default_capabilities(pull: bool) -> ClientCapabilities {
+    let mut caps = ClientCapabilities::default();
+    caps.workspace = Some(lsp_types::WorkspaceClientCapabilities {
+        did_change_watched_files: Some(lsp_types::DidChangeWatchedFilesClientCapabilities {
+            dynamic_registration: Some(true),
+            relative_pattern_support: None,
+        }),
+        ..Default::default()
+    });
+    if pull {
+        caps.text_document = Some(lsp_types::TextDocumentClientCapabilities {
+            diagnostic: Some(Default::default()),
+            ..Default::default()
+        });
+    }
+    caps
 }
 
 pub struct Session {
